@@ -149,12 +149,13 @@ impl DcpsDomainParticipant {
                                     crate::xtypes::dynamic_type::TypeKind::INT16 => todo!(),
                                     crate::xtypes::dynamic_type::TypeKind::INT32 => {
                                         let member_value = data.get_int32_value(member_id).unwrap();
-                                        if !comparison_function.compare_int32(
-                                            member_value,
-                                            &content_filtered_topic.expression_parameters[0]
-                                                .parse()
-                                                .expect("valid number"),
-                                        ) {
+                                        // A parameter that is not a number compares with nothing: the sample does not pass
+                                        let Ok(parameter) =
+                                            content_filtered_topic.expression_parameters[0].parse()
+                                        else {
+                                            continue 'changes;
+                                        };
+                                        if !comparison_function.compare_int32(member_value, &parameter) {
                                             continue 'changes;
                                         }
                                     }
